@@ -71,7 +71,7 @@ class SBool:
         return ctx().decide(self.t)
 
     def __repr__(self):
-        return "<SBool %s>" % self.t
+        return "<SBool>"
 
     def __hash__(self):
         raise Unsupported("hash of symbolic bool")
@@ -230,7 +230,9 @@ class SNum:
         return self
 
     def __repr__(self):
-        return "<%s %s>" % (type(self).__name__, self.t)
+        # z3 is not thread-safe and reprs are also requested by other threads (logging, GC):
+        # never touch the term here
+        return "<%s>" % type(self).__name__
 
     __str__ = __repr__
 
@@ -506,6 +508,43 @@ def _binop_inf(a, b, op):
 
 
 # ---------------------------------------------------------------------------------------------
+class SSeq:
+    """stand-in for a str / list / tuple value of symbolic length: only its emptiness is observable"""
+
+    __slots__ = ("kind", "n")
+
+    def __init__(self, kind, n):
+        self.kind, self.n = kind, n  # n: z3 Int term (length)
+
+    def __bool__(self):
+        return ctx().decide(self.n != 0)
+
+    def __len__(self):
+        raise Unsupported("len() of a symbolic sequence needs a concrete value")
+
+    def __iter__(self):
+        raise Unsupported("iteration over a symbolic sequence")
+
+    def __hash__(self):
+        raise Unsupported("hash of a symbolic sequence")
+
+    def __eq__(self, other):
+        if isinstance(other, {"str": str, "list": list, "tuple": tuple}[self.kind]):
+            if len(other) == 0:
+                return _wrap_bool(self.n == 0)
+            return _wrap_bool(z3.And(self.n == len(other), z3.Bool("seq_eq!%d" % id(self))))
+        return NotImplemented
+
+    def __ne__(self, other):
+        r = self.__eq__(other)
+        return r if r is NotImplemented else Not(r)
+
+    def __repr__(self):
+        return "<symbolic %s>" % self.kind
+
+    __str__ = __repr__
+
+
 class TInt(int):
     """concrete-replay int input: a distinct object per input even for equal values, so that
     identity obligations ("the very object supplied") stay meaningful when the model says 0"""
@@ -703,6 +742,26 @@ class Ctx:
         self.add(v == n - 1)
         return n - 1
 
+    def boolvalue(self, name):
+        """a symbolic bool VALUE (not resolved by forking): something the code under test may test"""
+        if self.mode == "conc":
+            return bool(self.conc_inputs[name])
+        with self._lock:
+            v = z3.Bool(name)
+            self.inputs[name] = ("bool", v)
+        return SBool(v)
+
+    def seq(self, name, kind, maxlen=3):
+        """a str / list / tuple value of symbolic length 0..maxlen"""
+        if self.mode == "conc":
+            n = int(self.conc_inputs[name])
+            return {"str": "x" * n, "list": [0] * n, "tuple": (0,) * n}[kind]
+        with self._lock:
+            v = z3.Int(name)
+            self.inputs[name] = ("int", v)
+        self.add(z3.And(v >= 0, v <= maxlen))
+        return SSeq(kind, v)
+
     def fresh_int(self, stem):
         with self._lock:
             self._fresh += 1
@@ -807,8 +866,14 @@ class Ctx:
         raise CutPath(why)
 
     # -- obligations ---------------------------------------------------------------------------
-    def require(self, cond, label, antecedent=None, detail=None):
-        """proof obligation: pc => (antecedent => cond)"""
+    def require(self, cond, label, antecedent=None, detail=None, fatal=False):
+        """proof obligation: pc => (antecedent => cond); fatal: a failure poisons/ends this shard"""
+        ok = self._require(cond, label, antecedent, detail)
+        if fatal and not ok:
+            self.notes["fatal"] = label
+        return ok
+
+    def _require(self, cond, label, antecedent=None, detail=None):
         with self._lock:
             occ = self.req_count.get(label, 0)
             self.req_count[label] = occ + 1
@@ -911,7 +976,7 @@ class Ctx:
 
 
 def is_sym(x):
-    return isinstance(x, (SNum, SBool))
+    return isinstance(x, (SNum, SBool, SSeq))
 
 
 def activate(c):
@@ -1101,6 +1166,9 @@ def explore(harness, params=None, model="R", seed=0, witness_every=1, max_paths=
         # path witness: model of pc -> concrete re-run must agree on all observations
         if end == "ok" and witness_every and (n_done % witness_every == 0):
             _witness(harness, params, model, c, res)
+        if c.notes.get("fatal") and any(v.get("status", "").startswith("confirmed") for v in res.violations):
+            res.stopped_early = "stopped after the confirmed violation of %r (each further path would cost a full time-out)" % c.notes["fatal"]
+            break
         if max_paths and n_done >= max_paths:
             res.engine_errors.append("path budget %d exhausted" % max_paths)
             break
@@ -1160,18 +1228,27 @@ def _witness(harness, params, model, c: Ctx, res: Result):
             outcome = "exception in concrete run: %s: %s" % (type(e).__name__, e)
             continue
         got = [(lab, _norm(val)) for lab, val in cc.observations]
-        for lab, occ, det in cc.failed_conc_only:
+        extra_failed = [(l, o, d) for (l, o, d) in cc.failed_conc if (l, o) not in sym_failed]
+        if (extra_failed or cc.failed_conc_only) and not exact:
+            outcome = "float run failed an obligation; confirming with exact arithmetic"
+            continue  # rounding must not raise an alarm: confirm with exact arithmetic first
+        # the real code, on real python values, fails an obligation the symbolic run did not flag
+        # (the proxy was a weaker stand-in than the real object): a concrete counterexample
+        for lab, occ, det in cc.failed_conc_only + extra_failed:
             if not any(v["label"] == lab for v in res.violations):
                 res.violations.append({
                     "label": lab, "occurrence": occ, "inputs": jsonable(inputs), "params": jsonable(params),
                     "model": model, "status": "confirmed", "detail": jsonable(det),
                     "replayed_with": ["fraction" if exact else "float"]})
+        if extra_failed:
+            outcome = "violation"
+            break
         tol = Fraction(1, 10 ** 9) if not exact else Fraction(0)
         same = (
-            cc.notes.get("end") == "ok"
+            (cc.notes.get("end") == "ok" or bool(extra_failed))
             and len(got) == len(expected)
             and all(a[0] == b[0] and _close(a[1], b[1], tol) for a, b in zip(expected, got))
-            and {(l, o) for (l, o, _d) in cc.failed_conc} <= sym_failed
+            and ({(l, o) for (l, o, _d) in cc.failed_conc} <= sym_failed or bool(extra_failed))
         )
         if same:
             outcome = "ok" if not exact or not float_ok else "ok-rounding"
@@ -1183,6 +1260,8 @@ def _witness(harness, params, model, c: Ctx, res: Result):
     elif outcome == "ok-rounding":
         res.stats.witness_ok += 1
         res.stats.witness_rounding += 1
+    elif outcome == "violation":
+        res.stats.witness_ok += 1
     else:
         res.engine_errors.append("witness replay failed (%s) inputs=%s params=%s" % (
             outcome, jsonable(inputs), jsonable(params)))
